@@ -629,6 +629,36 @@ func TestVerifC03(t *testing.T) {
 				c := c03Case{World: w, Cmds: hist}
 				t0 := time.Now()
 				res := c03Exec(c)
+				if res.deadline {
+					// the 20 s last-resort deadline: believed only if the same case hits it
+					// again twice (a loaded machine can starve one execution)
+					again := 0
+					for i := 0; i < 2; i++ {
+						if r2 := c03Exec(c); r2.deadline {
+							again++
+						} else {
+							res = r2
+						}
+					}
+					if again < 2 {
+						r.Count("deadline_hit_not_reproduced", 1)
+						r.Cap("a reply deadline was hit once and did not reproduce: " + vx.JSON(c))
+					}
+				}
+				if res.fp != "" && !strings.HasPrefix(res.fp, "HARNESS:") && w.Fault2 != "" {
+					// two-fault world: a violation that also occurs with one of the faults alone is
+					// reported as that smaller case (the minimal fault set identifies the defect)
+					kind := strings.SplitN(res.fp, ":", 3)[1]
+					for _, single := range []string{w.Fault, w.Fault2} {
+						sw := w
+						sw.Fault, sw.Fault2 = single, ""
+						if r1 := c03Exec(c03Case{World: sw, Cmds: hist}); r1.fp != "" && strings.SplitN(r1.fp, ":", 3)[1] == kind {
+							res.fp, res.detail = r1.fp, r1.detail+"\n(found in the two-fault world "+vx.JSON(w)+", reproduced with this fault alone)"
+							c = c03Case{World: sw, Cmds: hist}
+							break
+						}
+					}
+				}
 				if d := time.Since(t0); d > 2*time.Second {
 					fmt.Printf("NOTE: slow execution (%s): %s %v fp=%s\n", d, vx.JSON(w), hist, res.fp)
 					r.Count("slow_executions", 1)
